@@ -180,9 +180,15 @@ def oracle_dobj(run):
                     return ("map %s is not consistently protected: thread %d accesses it holding %s, earlier accesses held %s"
                             % (m, tid, sorted(hs), sorted(prev)))
         elif k == "ret":
+            if phase.get(tid) == "called":
+                # a call that took no lock at all (a lock-free fast path): not by itself a failure; it is placed in the
+                # order of the sections at its return, where it must have had its effect - the futures decide
+                kind, key, arg = cur[tid]
+                sec_of[tid] = len(sections)
+                sections.append((i, tid, kind, key, arg))
+                phase[tid] = "unlocked"
             if phase.get(tid) != "unlocked":
-                return "thread %d returned from %s %s" % (tid, t[1], "without a critical section" if phase.get(tid) == "called"
-                                                          else "holding %s" % sorted(heldset.get(tid, ())))
+                return "thread %d returned from %s holding %s" % (tid, t[1], sorted(heldset.get(tid, ())))
             results[sec_of[tid]] = t[-1]
             kind, key, arg = cur[tid]
             hist.append(dict(kind=kind, key=key, start=started[tid], end=i, got=t[-1] if kind in ("rec", "comp") else None))
